@@ -166,13 +166,13 @@ impl<T> Table<T> {
     pub(crate) fn alloc(&mut self) -> usize {
         let index = (self.min_free..=self.last_index)
             .find(|&i| !self.is_occupied(i))
-            .unwrap_or_else(|| {
-                self.last_index += 1;
-                self.last_index
-            });
+            .unwrap_or(self.last_index + 1);
 
         if index >= self.capacity() {
             panic!("Storage is full");
+        }
+        if index > self.last_index {
+            self.last_index = index;
         }
 
         self.data[index].set_occupied(true);
